@@ -60,7 +60,9 @@ def required(tier):
            'load-refused:row-replaced-by-a-copy-of-another',
            'table:sample', 'table:generated', 'loaded:from-toml-file',
            'two-tables:same-grid-other-values', 'state-object:reused-across-models',
-           'threads:four-evaluating-one-model']
+           'threads:four-evaluating-one-model',
+           'result-object:modified-by-caller-then-same-state-again',
+           'ptf:through-the-command-line-tool-into-an-existing-file']
     return {'classes': cl, 'evaluations': 3000}
 
 
@@ -216,6 +218,27 @@ def run_shard(spec, rec):
                 raise Mismatch('result depends on something other than altitude, mass and phase',
                                {'phase': ph, 'fl': f, 'mass': m, 'results': [g1, g2, g3], **case})
             rec.cls(f'{ph}:purity')
+            # the caller works on the returned object (per-engine fuel flow, unit change ...) and
+            # asks for the SAME state again: the answer is the table's, not the modified one
+            st_same = AircraftState(altitude=alt, aircraft_mass=m)
+            pa = model.evaluate(st_same, RULES[ph])
+            try:
+                pa.fuel_flow = pa.fuel_flow / 2.0 + 1.0
+                pa.true_airspeed = -1.0
+                pa.rate_of_climb = 12345.0
+                modified = True
+            except Exception:  # noqa: BLE001  (immutable results are fine)
+                modified = False
+            pb = model.evaluate(st_same, RULES[ph])
+            rec.ev()
+            if (pb.true_airspeed, pb.rate_of_climb, pb.fuel_flow) != g1:
+                raise Mismatch('evaluate() returns an object the caller modified earlier instead '
+                               'of the table values',
+                               {'phase': ph, 'fl': f, 'mass': m, 'first': g1,
+                                'second': [pb.true_airspeed, pb.rate_of_climb, pb.fuel_flow],
+                                **case})
+            if modified:
+                rec.cls('result-object:modified-by-caller-then-same-state-again')
             # ---- (d) envelope --------------------------------------------------------------------
             for f_out in (fls[-1] * (1 + 10 ** rng.uniform(-6, -1)) + 1e-4,
                           fls[0] - max(1e-4, abs(fls[0]) * 10 ** rng.uniform(-6, -1)),
@@ -419,16 +442,47 @@ def run_shard(spec, rec):
                 f = hdir / f'x{k}.PTF'
                 f.write_text(text)
                 ptf = PTFData.load(f)
-                tbl = mpm.build_performance_table(ptf)
-                md = perfgen.model_dict([])
-                md['flight_performance'] = tbl
-                md['maximum_altitude_ft'] = ptf.maximum_altitude_ft
-                try:
-                    m2 = PerformanceModel.from_data(md)
-                except Exception as e:  # noqa: BLE001
-                    raise Mismatch('model built from a well-formed PTF file was refused',
-                                   {'error': f'{type(e).__name__}: {str(e)[:200]}',
-                                    'ptf_head': text[:600], **case})
+                if k % 3 == 1:
+                    # through the command-line tool, as a user would: an archive PTF file (old
+                    # time stamp) is converted into a model file that ALREADY exists because
+                    # another PTF file was converted into it a moment ago
+                    import tomli_w
+                    from click.testing import CliRunner
+                    other_text, _ = perfgen.gen_ptf(rng)
+                    f_other = hdir / f'y{k}.PTF'
+                    f_other.write_text(other_text)
+                    os.utime(f, (978307200, 978307200))            # 2001-01-01
+                    lto_file = hdir / f'lto{k}.toml'
+                    with open(lto_file, 'wb') as fh:
+                        tomli_w.dump({'LTO_performance': perfgen.LTO}, fh)
+                    out_model = hdir / f'cli_model{k}.toml'
+                    for src in (f_other, f):
+                        res = CliRunner().invoke(mpm.cli, [
+                            '--output-file', str(out_model), 'legacy', '--lto-source', 'custom',
+                            '--lto-file', str(lto_file), '--ptf-file', str(src),
+                            '--aircraft-class', 'narrow', '--number-of-engines', '2'])
+                        if res.exit_code != 0:
+                            raise Mismatch('the model-file tool failed on a well-formed PTF file',
+                                           {'exit_code': res.exit_code,
+                                            'output': str(res.output)[-300:],
+                                            'exception': repr(res.exception)[:200], **case})
+                    try:
+                        m2 = PerformanceModel.load(out_model)
+                    except Exception as e:  # noqa: BLE001
+                        raise Mismatch('model file written by the tool was refused',
+                                       {'error': f'{type(e).__name__}: {str(e)[:200]}', **case})
+                    rec.cls('ptf:through-the-command-line-tool-into-an-existing-file')
+                else:
+                    tbl = mpm.build_performance_table(ptf)
+                    md = perfgen.model_dict([])
+                    md['flight_performance'] = tbl
+                    md['maximum_altitude_ft'] = ptf.maximum_altitude_ft
+                    try:
+                        m2 = PerformanceModel.from_data(md)
+                    except Exception as e:  # noqa: BLE001
+                        raise Mismatch('model built from a well-formed PTF file was refused',
+                                       {'error': f'{type(e).__name__}: {str(e)[:200]}',
+                                        'ptf_head': text[:600], **case})
                 rec.ev()
                 if (ptf.low_mass, ptf.nominal_mass, ptf.high_mass, ptf.maximum_altitude_ft,
                         ptf.maximum_payload) != (sp['low'], sp['nom'], sp['high'],
